@@ -155,8 +155,11 @@ class ManWorld:
 
     # ---- sampling
     def pump_task(self):
+        if getattr(self, "_pump", None) is not None:
+            return self._pump
         for t in getattr(self.man, "_tasks", []):
             if t.get_name() == "SPAMAN:Sequence Pump":
+                self._pump = t  # the tidy loop forgets finished tasks: keep our own reference
                 return t
         return None
 
